@@ -1,1 +1,28 @@
-//! serde round trips of every k-mer type (used by c18 only)
+//! bsvs - serde round trips of every k-mer type (only C18 pays for these 634 instantiations).
+pub mod ksd;
+
+use bio_seq::kmer::Kmer;
+use bsv::codecs::*;
+use bsvk::Store;
+use std::marker::PhantomData;
+
+pub fn rt<A: Sx, const K: usize, S: Store>(v: u128) -> (Result<u128, String>, Result<u128, String>) {
+    let k: Kmer<A, K, S> = Kmer { _p: PhantomData, bs: S::from_u128(v) };
+    let b = (|| {
+        let bytes = bincode::serialize(&k).map_err(|e| format!("serialize: {e}"))?;
+        let back: Kmer<A, K, S> = bincode::deserialize(&bytes).map_err(|e| format!("deserialize: {e}"))?;
+        if back != k {
+            return Err(format!("deserialized k-mer != original ({:#x} vs {v:#x})", back.bs.to_u128()));
+        }
+        Ok(back.bs.to_u128())
+    })();
+    let j = (|| {
+        let txt = serde_json::to_string(&k).map_err(|e| format!("serialize: {e}"))?;
+        let back: Kmer<A, K, S> = serde_json::from_str(&txt).map_err(|e| format!("deserialize {txt}: {e}"))?;
+        if back != k {
+            return Err(format!("deserialized k-mer != original ({:#x} vs {v:#x})", back.bs.to_u128()));
+        }
+        Ok(back.bs.to_u128())
+    })();
+    (b, j)
+}
